@@ -18,8 +18,38 @@ MON = ("ticker", "tick_times", "device_order")
 CORR = ("ticker", "sim")
 
 
+def race_scenarios(rng, tier):
+    """interrupts that arrive within a few loop iterations of a sleeping callback's expiry (real time
+    passes while the loop iterates: `step_cost_ns`), interrupts raised before a late master's first
+    tick followed by later interrupts of the same component, interrupts mid-tick"""
+    from .c07 import dev
+    P = 1_000_000
+    out = []
+    # the callback tick of `a` is due at (end of initial tick) + P; with a per-iteration cost the initial
+    # tick ends a few dozen ns after the start, so sweep the arrival of b's interrupt across that window
+    # iterations take a varying amount of real time (seeded): [seed, choices...]
+    for sd in range(4 if tier == "quick" else 24):
+        for off in range(-10, 80, 2):
+            out.append({"components": [dev("a", cb={"kind": "period", "p": P}), dev("b"), dev("c", {"i": ["a", "o"]})],
+                        "n_ticks": 4, "step_cost_ns": [sd + 1, 0, 1, 1, 2, 5], "stims": [{"real": P + off, "comp": "b"}]})
+    for late in (2, 3, 5):
+        for at in (1, 2):
+            out.append({"components": [dev("x"), dev("a", cb={"kind": "period", "p": P})], "n_ticks": 5, "start_delays": {"": late},
+                        "stims": [{"step": 1 + at, "comp": "x"}, {"real": P + P // 2, "comp": "x"}, {"real": 2 * P + P // 2, "comp": "x"}]})
+    return out
+
+
 def run(tier, seed, drv):
-    return simprop.generic_run(tier, seed, drv, monitors_on=MON, corr=CORR)
+    import random
+    from sim import run_scenario
+    from . import simcommon as SC
+    res = simprop.generic_run(tier, seed, drv, monitors_on=MON, corr=CORR)
+    for scn in race_scenarios(random.Random(seed), tier):
+        run_ = run_scenario(scn, bus="sync")
+        res.case(SC.scn_key(scn), nontrivial=True)
+        res.count("race-scenarios")
+        SC.check_run(scn, run_, drv, res, monitors_on=MON, corr=("ticker",), case_extra={"bus": "sync"})
+    return res
 
 
 def replay(payload, drv):
